@@ -25,6 +25,7 @@ fn main() {
 		"ws_request_limit_paths" => probes::ws_request_limit_paths(),
 		"client_reply_overtakes_send" => probes::client_reply_overtakes_send(),
 		"http_client_batch_positional" => probes::http_client_batch_positional(),
+		"server_message_classification" => probes::server_message_classification(),
 		_ => json!({"probe": name, "error": "unknown probe"}),
 	};
 	println!("{}", res);
